@@ -282,6 +282,27 @@ func c11OpenFailsDelivered(tier string, seed int64, idx int, c c11Case, res *cor
 	})
 	end := b.Links[0].A
 	end.DeliverButFailWritesAt(end.Writes())
+	if idx%2 == 1 && c.M >= 2 {
+		// the transport takes its time to report the failure: meanwhile the handler's first
+		// messages arrive for the stream that is still being opened
+		tap := b.Links[0].Tap
+		end.SetLateFailHold(func() {
+			for k := 0; k < 2000; k++ {
+				n := 0
+				for _, e := range tap.Log() {
+					if e.Dir == 1 { // the log holds delivered envelopes only
+						n++
+					}
+				}
+				if n >= 2 {
+					break
+				}
+				time.Sleep(time.Millisecond)
+			}
+			time.Sleep(20 * time.Millisecond)
+		})
+		res.Stat("open_failure_reported_after_responses", 1)
+	}
 	opened := make(chan error, 1)
 	go func() {
 		_, err := svc.Open(context.Background(), cc, c.Kind, tag, []byte("q"))
